@@ -8,12 +8,13 @@ CONSTANTS
   MaxEntries = %d
   PoolSize = %d
   DoExport = %s
+  RenameInPlace = FALSE
 INVARIANTS InvAtDone InvDefinitionOrder InvRuntimePrecedence Export
 PROPERTY Termination
 CHECK_DEADLOCK FALSE
 """
 ASSUMPTIONS = [
-    "Entries whose EXPANDED names collide with each other or with a later entry's written name are outside the verdict (the statement does not say which survives); they are not generated.",
+    "Entries whose FINAL (expanded) names collide with each other are outside the verdict (the statement does not say which survives); an entry whose expanded name equals a later entry's WRITTEN name is in scope (the later entry ends under another name and must still be processed: finding F22).",
     "Name equality of the caller is exact or upper-casing; both the harness's own recording environment and the library's internal/env.Env (both case modes) are used as the caller environment.",
     "Strings are token sequences (literal, $V/${V}, $$V/\\\\$V, ${V:-d}/${V-d}, ${V?}); the substring form ${V:0:3} is not modelled.",
 ]
